@@ -92,12 +92,27 @@ def run_single(vals, minimize, batching, repeats=None, pre=False):
     elif batching == "single":
         for ind in order:
             tracker.evaluate_single(ind)
+    elif batching == "generator":
+        tracker.evaluate(x for x in order)      # a one-shot iterable (the signature says Iterable[Individual])
     else:
         tracker.evaluate(order)
+    rec.presented = len(order)
     return rec, tracker
 
 
+def all_reported(h: Harness, site, rec, label) -> bool:
+    """every individual handed to the tracker is reported to the recorders (once per presentation)"""
+    n = getattr(rec, "presented", None)
+    if n is not None and len(rec.rows) != n:
+        h.fail(site, "evaluated-individual-never-reported", f"{label}: {n} individuals were handed to the tracker, the recorder was told about {len(rec.rows)}",
+               [label, n, len(rec.rows)])
+        return False
+    return True
+
+
 def judge_single(h: Harness, site, rec, minimize, label):
+    if not all_reported(h, site, rec, label):
+        return
     hist_agg = [[r["uid"], as_int(r["agg"])] for r in rec.rows]
     hist_raw = [[r["uid"], as_int(r["comps"][0])] for r in rec.rows]
     bests = [r["best"] for r in rec.rows]
@@ -119,7 +134,7 @@ def check_single_histories(h: Harness):
     for n in range(1, L + 1):
         for vals in itertools.product((0, 1, 2), repeat=n):
             for minimize in (False, True):
-                batching = ("one-by-one", "batch", "single")[k % 3]
+                batching = ("one-by-one", "batch", "single", "generator")[k % 4]
                 k += 1
                 pre = k % 4 == 1
                 if k % 8 == 5:
@@ -137,9 +152,52 @@ def check_single_histories(h: Harness):
         repeats = list(range(n)) + [rng.randrange(n) for _ in range(m - n)]
         rng.shuffle(repeats)
         minimize = rng.random() < 0.5
-        rec, _ = run_single(vals, minimize, rng.choice(["one-by-one", "batch"]), repeats)
+        rec, _ = run_single(vals, minimize, rng.choice(["one-by-one", "batch", "generator"]), repeats)
         judge_single(h, site, rec, minimize, f"values {vals} presented in order {repeats}")
         h.count("single:re-presented")
+
+
+def check_infinite_fitness(h: Harness):
+    """fitness values at the ends of the number line: an infinitely GOOD individual (inf when maximising, -inf when minimising) is the
+    best there is -- it is reported, flagged and returned; an infinitely bad one never displaces anything.  Judged by the same
+    predicate with the infinities mapped to integers beyond all other values."""
+    rng = h.rng
+    inf = float("inf")
+    BIG = 10**9
+    site = "SingleObjectiveProgressTracker.evaluate"
+    for trial in range(h.n(80, 800)):
+        n = rng.randint(2, 8)
+        vals = [float(rng.randint(-3, 3)) for _ in range(n)]
+        for j in rng.sample(range(n), rng.randint(1, min(3, n))):
+            vals[j] = rng.choice([inf, -inf])
+        minimize = trial % 2 == 0
+        rec = Recording()
+        problem = SingleObjectiveProblem(lambda ph: ph[1], minimize=minimize)
+        tracker = SingleObjectiveProgressTracker(problem, SequentialEvaluator(), recorders=[rec])
+        inds = [mk_ind(i, v) for i, v in enumerate(vals)]
+        try:
+            if trial % 3 == 0:
+                tracker.evaluate(inds)
+            else:
+                for ind in inds:
+                    tracker.evaluate([ind])
+        except Exception as e:  # noqa: BLE001
+            h.fail(site, "raises", f"values {[repr(v) for v in vals]} (minimize={minimize}): {type(e).__name__}: {e}", [repr(v) for v in vals])
+            continue
+
+        def unit(v):
+            return BIG if v == inf else (-BIG if v == -inf else int(v))
+        hist_raw = [[r["uid"], unit(r["comps"][0])] for r in rec.rows]
+        bests = [r["best"] for r in rec.rows]
+        flags = [bool(r["is_best"]) for r in rec.rows]
+        h.count("single:infinite-fitness")
+        h.seen(f"inf12:{trial}", nontrivial=True)
+        if len(rec.rows) != n or any(b is None for b in bests):
+            h.fail(site, "evaluated-individual-never-reported", f"values {[repr(v) for v in vals]}: {len(rec.rows)} registrations for {n} individuals", [repr(v) for v in vals])
+            continue
+        h.holds(site, "wrong-best-or-flag", ["prop_single", minimize, hist_raw, bests, flags],
+                f"fitness history {[repr(v) for v in vals]} (minimize={minimize}; infinities shown as +-10^9): values(uid,value)={hist_raw} reported best uids={bests} "
+                f"is_best flags={flags}", hist_raw)
 
 
 # monotone injective re-scalings of the fitness values: the trackers may depend on the ORDER of
@@ -225,8 +283,11 @@ def run_multi(aggs, variant, batching, repeats=None, pre=False):
     if batching == "one-by-one":
         for ind in order:
             tracker.evaluate([ind])
+    elif batching == "generator":
+        tracker.evaluate(iter(order))
     else:
         tracker.evaluate(order)
+    rec.presented = len(order)
     return rec, tracker
 
 
@@ -234,6 +295,8 @@ VARIANT_MINS = {"default": [False, True], "bool": [True, True], "one-min": [True
 
 
 def judge_multi(h: Harness, site, rec, label, variant=None):
+    if not all_reported(h, site, rec, label):
+        return
     hist = [[r["uid"], as_int(r["agg"])] for r in rec.rows]
     mins = VARIANT_MINS.get(variant)
     if mins is not None:
@@ -256,7 +319,7 @@ def check_multi_histories(h: Harness):
     for n in range(1, L + 1):
         for aggs in itertools.product((0, 1, 2), repeat=n):
             variant = ("default", "bool", "user", "one-min", "one-min-bool")[k % 5]
-            batching = ("one-by-one", "batch")[(k // 5) % 2]
+            batching = ("one-by-one", "batch", "generator")[(k // 5) % 3]
             k += 1
             pre = k % 4 == 1
             rec, _ = run_multi(aggs, variant, batching, pre=pre)
@@ -270,7 +333,7 @@ def check_multi_histories(h: Harness):
         repeats = list(range(n)) + [rng.randrange(n) for _ in range(m - n)]
         rng.shuffle(repeats)
         variant = rng.choice(["default", "bool", "user", "one-min", "one-min-bool"])
-        rec, _ = run_multi(aggs, variant, rng.choice(["one-by-one", "batch"]), repeats)
+        rec, _ = run_multi(aggs, variant, rng.choice(["one-by-one", "batch", "generator"]), repeats)
         judge_multi(h, site, rec, f"aggregates {aggs} presented in order {repeats} ({variant} aggregate)", variant)
         h.count("multi:re-presented")
 
@@ -501,6 +564,7 @@ def run(h: Harness):
     check_parallel_search(h)
     check_gp_in_step_evaluation(h)
     check_single_histories(h)
+    check_infinite_fitness(h)
     check_multi_histories(h)
     h.exhaustive = True
     check_scale_invariance(h)
